@@ -18,9 +18,13 @@ def _fails(mod, case, tape_list, oracle, run_timeout, seed=None):
     except Exception:
         return None
     for v in out["violations"]:
-        if v["oracle"] == oracle:
+        if v["oracle"] == oracle and (ACCEPT is None or ACCEPT(v)):
             return v, list(tape.rec)
     return None
+
+
+ACCEPT = None      # optional predicate set by the worker: keep only violations that are not a
+                   # known finding, so that minimisation cannot drift into a listed class
 
 
 def _slice_table(table, sizes, axis, keep):
